@@ -18,7 +18,7 @@ ANCHORS = ["occupancy_shape_from_state", "DynamicObstacle.occupancy_at_time", "D
            "TrajectoryPrediction._create_occupancy_set", "Scenario.occupancies_at_time_step",
            "Scenario.obstacle_states_at_time_step", "Scenario.obstacles_by_role_and_type",
            "Scenario.obstacles_by_position_intervals"]
-REQUIRED = ["velocity-vector-state.moved-on-level-of-scenario", "velocity-vector-state.moved-on-level-of-trajectory", "contract.velocity-vector-state.asked-before-moved", "requery-after.static.obstacle.translate_rotate", "set.intervals-sharing-a-step", "requery-after.trajectory.translate_rotate", "requery-after.prediction.shape=", "role.static", "role.dynamic", "role.phantom", "role.environment", "pred.trajectory", "pred.gap", "pred.set",
+REQUIRED = ["requery-after.obstacle.update_initial_state", "velocity-vector-state.moved-on-level-of-scenario", "velocity-vector-state.moved-on-level-of-trajectory", "contract.velocity-vector-state.asked-before-moved", "requery-after.static.obstacle.translate_rotate", "set.intervals-sharing-a-step", "requery-after.trajectory.translate_rotate", "requery-after.prediction.shape=", "role.static", "role.dynamic", "role.phantom", "role.environment", "pred.trajectory", "pred.gap", "pred.set",
             "pred.set-interval", "pred.none", "pred.overlap", "state.PMState", "state.KSState", "state.MBState", "state.CustomState",
             "exact-placement.Rectangle", "exact-placement.Circle", "exact-placement.Polygon",
             "exact-placement.ShapeGroup", "uncertain-position.Rectangle", "uncertain-position.Circle",
@@ -212,7 +212,7 @@ def run(ctx):
         # query -> transform / re-assign -> query: the occupancy must be the shape placed at the state the obstacle has NOW
         if role == "dynamic" and desc["kind"] in ("trajectory", "gap", "overlap"):
             op = ["trajectory.translate_rotate", "prediction.translate_rotate", "obstacle.translate_rotate",
-                  "prediction.shape=", "prediction.trajectory="][(i // 30 + i // 6) % 5]
+                  "prediction.shape=", "prediction.trajectory=", "obstacle.update_initial_state"][(i // 36 + i // 6) % 6]
             ctx.feature("requery-after." + op)
             tr, an = np.array([rng.uniform(-20, 20), rng.uniform(-20, 20)]), rng.choice([0.0, 0.03, 1.0, -2.5])
             try:
@@ -222,6 +222,15 @@ def run(ctx):
                     ob.prediction.translate_rotate(tr, an)
                 elif op == "obstacle.translate_rotate":
                     ob.translate_rotate(tr, an)
+                elif op == "obstacle.update_initial_state":
+                    # the obstacle is re-anchored at a measured state inside the horizon of its (old) prediction; the
+                    # measurement differs from what had been predicted for that step
+                    import commonroad.scenario.state as st__
+                    t1 = min(max(t0 + 1, ob.prediction.initial_time_step), tf)
+                    ob.update_initial_state(st__.InitialState(
+                        time_step=t1, position=np.array([100.0 * oid + t1 + 0.25, 50.0 * oid - t1 + 0.125]) + tr * 0.1,
+                        orientation=float(an) + 0.4, velocity=1.0, acceleration=0.0, yaw_rate=0.0, slip_angle=0.0))
+                    t0 = t1
                 elif op == "prediction.shape=":
                     ob.prediction.shape = gen_shape(G, rng, allow_group=False)
                 else:
